@@ -238,12 +238,6 @@ def run(ctx):
         ctx.obligation("static-lib", False, log[-1500:])
         ctx.violation("static-lib-build", "coq/lib or coq/model does not build", {"log": log[-3000:]}, found_input=False)
         return
-    Tr, st = static_part(ctx)
-    proofs_ok = False
-    if Tr is not None:
-        res, struct_ok, okw, bad_args, selfw, flag = st
-        proofs_ok = res.ok and struct_ok
-
     # ------------------------------ correspondence -------------------------------------------
     rng = ctx.rng
     quick = ctx.tier == "quick"
@@ -256,7 +250,26 @@ def run(ctx):
     unit_groups = G.make_unit_cases(rng, 9 if quick else 30)
     for grp in unit_groups:
         cases += grp
-    out, errs = run_harness(ctx, {"cases": cases, "spectral": spec, "sim_cases": sims, "batches": batches, "memo_cases": memos})
+    # the implementation-side harness runs while Coq compiles (they do not depend on each other)
+    import threading
+    box = {}
+
+    def _bg():
+        try:
+            box["r"] = run_harness(ctx, {"cases": cases, "spectral": spec, "sim_cases": sims, "batches": batches, "memo_cases": memos})
+        except Exception:
+            import traceback
+            box["r"] = ({"cases": [], "spectral": [], "sim": [], "batch": [], "memo": []}, [traceback.format_exc()[-1500:]])
+    th = threading.Thread(target=_bg)
+    th.start()
+    Tr, st = static_part(ctx)
+    proofs_ok = False
+    if Tr is not None:
+        res, struct_ok, okw, bad_args, selfw, flag = st
+        proofs_ok = res.ok and struct_ok
+
+    th.join()
+    out, errs = box["r"]
     if errs:
         ctx.obligation("corr:harness", False, errs[0])
         ctx.violation("corr:harness-crash", "the implementation-side harness failed: " + errs[0].strip().splitlines()[-1][:200], {"stderr": errs[0]}, found_input=False)
